@@ -561,8 +561,8 @@ func TestC20(t *testing.T) {
 			ev.HarnessError("C20 must run in the -race build")
 			return
 		}
-		kC20.Run(t, ev, perShard(pick(300, 20000)))
-		kC20GCS.Run(t, ev, perShard(pick(60, 3000)))
+		kC20.Run(t, ev, perShard(pick(300, 40000)))
+		kC20GCS.Run(t, ev, perShard(pick(60, 6000)))
 		ev.requireClasses("C20:overlapping-calls-observed", "C20:linearizable", "C20:with-reload-or-unload", "C20:with-matchtx",
 			"C20:goroutines=32", "C20:gcs-concurrent-queries")
 	})
